@@ -30,7 +30,8 @@ def world():
     import logging
     logging.getLogger("traits").addHandler(logging.NullHandler())
     logging.getLogger("traits").propagate = False
-    from traits.api import (HasTraits, TraitType, Int, List, Set, Property, cached_property, Supports, TraitError)
+    from traits.api import (HasTraits, TraitType, Int, List, Set, Property, cached_property, Supports, TraitError, Either,
+                            Instance, Range)
     from traits.adaptation.api import AdaptationManager, set_global_adaptation_manager
     EXC["TraitError"] = TraitError
 
@@ -52,8 +53,24 @@ def world():
                 self.error(obj, name, value)
             return value
 
+    class PVT(TraitType):
+        default_value = 0
+
+        def validate(self, obj, name, value):
+            maybe_fail("pvalidator")
+            return value
+
+    class Partner(HasTraits):
+        sv = PVT()
+
     class Target(HasTraits):
         depth = Int(0)
+
+    class Plain(HasTraits):
+        pass
+
+    class S3(Plain):
+        pass
 
     class S1(HasTraits):
         pass
@@ -75,10 +92,14 @@ def world():
     def f_mid(adaptee):
         maybe_fail("factory")
         return Target(depth=adaptee.depth + 1)
+    def f_s3(adaptee):
+        maybe_fail("factory")
+        return Target(depth=1)
     mgr = AdaptationManager()
     mgr.register_factory(f_s1, S1, Target)
     mgr.register_factory(f_s2, S2, Mid)
     mgr.register_factory(f_mid, Mid, Target)
+    mgr.register_factory(f_s3, S3, Target)
     set_global_adaptation_manager(mgr)
 
     class F(HasTraits):
@@ -92,6 +113,16 @@ def world():
         lst = List(Item())
         sset = Set(Item())
         sup = Supports(Target)
+        ea = Either(Instance(Target, adapt="yes"), Instance(Plain))
+        lo = Int(0)
+        hi = Int(10)
+        start = Int
+        dr = Range(low="lo", high="hi", value="start")
+        sv = Int
+
+        def _start_default(self):
+            maybe_fail("drdflt")
+            return 3
 
         def _dflt_default(self):
             maybe_fail("dflt")
@@ -113,7 +144,7 @@ def world():
         def _v_changed(self, new):
             self._log.append("hstatic")
             maybe_fail("hstatic")
-    _W.update(F=F, Target=Target, S=[Target, S1, S2], mgr=mgr)
+    _W.update(F=F, Target=Target, S=[Target, S1, S2], EA=[Target, S3], Partner=Partner, mgr=mgr)
     return _W
 
 
@@ -124,7 +155,10 @@ class Obj(object):
         o.__dict__["_log"] = []
         w["F"].__init__(o)
         o.sup = w["Target"]()
+        o.ea = w["Target"]()
         self.o = o
+        self.partner = w["Partner"]()
+        o.sync_trait("sv", self.partner, mutual=True)
         self.aux_calls = []
         o.on_trait_change(self._dyn, "v")
         o.observe(self._obs, "v")
@@ -144,6 +178,9 @@ class Obj(object):
         sup = o.sup
         return {"v": o.v, "vq": o.vq, "dflt": o.__dict__.get("dflt", -1), "p": o._p, "lst": list(o.lst), "sset": sorted(o.sset),
                 "sup": getattr(sup, "depth", 0) if sup is not None else -1,
+                "ea": getattr(o.ea, "depth", 50) if o.ea is not None else -1,        # 50: a raw (unadapted) Plain object
+                "dr": o.__dict__.get("_traits_cache_dr", -1), "start": o.__dict__.get("start", -1),
+                "sva": o.sv, "svb": self.partner.sv,
                 "cached": 1 if "_traits_cache_cp" in o.__dict__ else 0}
 
 
@@ -180,6 +217,16 @@ def step(ob, op, a, xs, f, probe_cp=True):
             o.sset.symmetric_difference_update([conc(x) for x in xs])
         elif op == "sup_assign":
             o.sup = w["S"][a]()
+        elif op == "ea_assign":
+            o.ea = w["EA"][a]()
+        elif op == "set_dr":
+            o.dr = 99 if a == BAD else a
+        elif op == "read_dr":
+            o.dr
+        elif op == "sync_a":
+            o.sv = a
+        elif op == "sync_b":
+            ob.partner.sv = a
         else:
             raise MachineryError(op)
     except EXC["TraitError"]:
@@ -202,10 +249,11 @@ def step(ob, op, a, xs, f, probe_cp=True):
             "probe_notifies": 1 if ob.aux_calls else 0}
 
 
-SITES = ["validator", "dflt", "getter", "setter", "item", "factory", "cpgetter_read", "cpgetter_notify", "hstatic", "hdyn", "hobs"]
+SITES = ["drdflt", "pvalidator", "validator", "dflt", "getter", "setter", "item", "factory", "cpgetter_read", "cpgetter_notify", "hstatic", "hdyn", "hobs"]
 OP_SITES = {"set_v": ["validator", "hstatic", "hdyn", "hobs", "cpgetter_notify"], "setq_v": ["validator"], "read_dflt": ["dflt"],
             "read_p": ["getter"], "set_p": ["setter"], "read_cp": ["cpgetter_read"], "lst_extend": ["item"],
-            "sset_update": ["item"], "sset_symdiff": ["item"], "sup_assign": ["factory"]}
+            "sset_update": ["item"], "sset_symdiff": ["item"], "sup_assign": ["factory"], "ea_assign": ["factory"],
+            "set_dr": ["drdflt"], "read_dr": ["drdflt"], "sync_a": ["pvalidator"], "sync_b": ["pvalidator"]}
 
 
 def run_history(rnd, steps, t):
@@ -214,8 +262,12 @@ def run_history(rnd, steps, t):
     for s in range(steps):
         op = rnd.choice(sorted(OP_SITES))
         a, xs = 0, []
-        if op in ("set_v", "setq_v", "set_p"):
+        if op in ("set_v", "setq_v", "set_p", "set_dr"):
             a = rnd.choice([1, 2, 3, 4, BAD])
+        elif op in ("sync_a", "sync_b"):
+            a = rnd.choice([1, 2, 3])
+        elif op == "ea_assign":
+            a = rnd.randint(0, 1)
         elif op == "sup_assign":
             a = rnd.randint(0, 2)
         elif op in ("lst_extend", "sset_update", "sset_symdiff"):
